@@ -216,8 +216,51 @@ Lemma custom_values_lost :
   exists out want, decode (encode witness_custom) = Some out /\ spec_request witness_custom = Some want /\ out <> want.
 Proof. eexists. eexists. split; [vm_compute; reflexivity|]. split; [vm_compute; reflexivity|]. intro H. discriminate H. Qed.
 
-Definition witness_union : request :=
-  [([116%N], [([([97%N], [98%N])], [], [(Some (false, 4617315517961601024%N), 0%N, 0, 0%N, None, [], [], [], [(0, 1%N)], [], [4607182418800017408%N], 0, 1000, [])], [])])].
+(* ---- decoding never panics, whatever the message ---- *)
+Lemma opt_map_total : forall A B (f : A -> option B) l, (forall x, exists y, f x = Some y) -> exists ys, opt_map f l = Some ys.
+Proof.
+  intros A B f l H. induction l as [|x l [ys IH]]; [eexists; reflexivity|].
+  destruct (H x) as [y Hy]. cbn [opt_map]. rewrite Hy, IH. eexists; reflexivity.
+Qed.
 
-Lemma float_histogram_without_zero_count_undefined : decode (encode witness_union) = None.
-Proof. vm_compute. reflexivity. Qed.
+Lemma dec_hist_total : forall w, exists h, dec_hist w = Some h.
+Proof.
+  intros [[[[[[[[[[[[c s] sc] zt] zc] ns] nd] nc] ps] pd] pc] r] t]. cbn [dec_hist].
+  destruct (fst c); eexists; reflexivity.
+Qed.
+
+Lemma decode_total : forall w, exists out, decode w = Some out.
+Proof.
+  intros [[offs data] ts]. cbn [decode]. apply opt_map_total. intros [tn ws]. cbn [fst snd].
+  destruct (opt_map_total _ _ (dec_series (decode_symbols offs data)) ws) as [ss E].
+  - intros [[[rs samples] hists] exemplars]. cbn [dec_series].
+    destruct (opt_map_total _ _ dec_hist hists dec_hist_total) as [hs Eh]. rewrite Eh. eexists; reflexivity.
+  - rewrite E. eexists; reflexivity.
+Qed.
+
+(* ---- the histogram decoding as it was before the repair: the generated
+   union accessors are called unguarded (None = their panic), and the encoder
+   left the zero count on the default arm when the oneof was unset ---- *)
+Definition enc_hist_old (h : in_hist) : wire_hist :=
+  match h with
+  | (c, s, sc, zt, zc, ns, nd, nc, ps, pd, pc, r, t, _custom) =>
+      (enc_cnt c, s, sc, zt, enc_cnt zc, ns, nd, nc, ps, pd, pc, r, t)
+  end.
+Definition dec_hist_old (w : wire_hist) : option out_hist :=
+  match w with
+  | (c, s, sc, zt, zc, ns, nd, nc, ps, pd, pc, r, t) =>
+      if fst c then
+        if fst zc then Some (true, r, snd c, s, sc, zt, snd zc, ps, ns, pd, nd, [], [], t, []) else None
+      else
+        if fst zc then None else Some (false, r, snd c, s, sc, zt, snd zc, ps, ns, [], [], pc, nc, t, [])
+  end.
+
+(* a float histogram whose zero_count oneof is unset *)
+Definition witness_union_hist : in_hist :=
+  (Some (false, 4617315517961601024%N), 0%N, 0, 0%N, None, [], [], [], [(0, 1%N)], [], [4607182418800017408%N], 0, 1000, []).
+
+Lemma float_histogram_without_zero_count_old_undefined :
+  dec_hist_old (enc_hist_old witness_union_hist) = None
+  /\ dec_hist (enc_hist witness_union_hist) = spec_hist witness_union_hist
+  /\ dec_hist (enc_hist_old witness_union_hist) <> None.
+Proof. vm_compute. repeat split; try reflexivity. discriminate. Qed.
